@@ -118,4 +118,14 @@ def search(chk, broken):
                     chk.failures.append(Failure('time-step-changes-rows', f'row at {r.distance.raw_value / 12:.2f} ft changes or disappears with time_step={ts}',
                                                 {'op': 'time-step', 'R': R, 'step': step, 'ts': ts}))
                     break
-    chk.search_evals += evals * 5
+            # time step AND extra data: the time rows of the plain run are still there (event rows do not move the time clock)
+            timed_extra, why4 = fire(pbc, calc, shot, R, step, True, ts)
+            if not why4:
+                tev = {vals(r) for r in timed_extra}
+                for r in timed:
+                    if vals(r) not in tev:
+                        chk.failures.append(Failure('extra-changes-time-rows', f'with time_step={ts} the plain row at t={r.time:.5f} s, {r.distance.raw_value / 12:.2f} ft is missing '
+                                                                               f'from the extra-data output of the same request',
+                                                    {'op': 'time-step-extra', 'R': R, 'step': step, 'ts': ts}))
+                        break
+    chk.search_evals += evals * 6
